@@ -78,14 +78,17 @@ def main():
     if len(sys.argv) > 1 and sys.argv[1] == '--reconfirm':
         return reconfirm(sys.argv[2:])
     only = sys.argv[1:]
-    for d in sorted(glob.glob('/tmp/seed_*/_out')):
-        prop = d.split('/')[2].replace('seed_', '')
+    # round 1 lives in /tmp/seed_<prop>, round 2 in /tmp/seed2_<prop> (filed as <prop>_3, <prop>_4)
+    for d in sorted(glob.glob('/tmp/seed_*/_out')) + sorted(glob.glob('/tmp/seed2_*/_out')):
+        rnd = 2 if '/seed2_' in d else 1
+        prop = d.split('/')[2].replace('seed2_', '').replace('seed_', '')
         if only and prop not in only:
             continue
-        for i in (1, 2):
-            diff = os.path.join(d, 'mut_%d.diff' % i)
-            demo = os.path.join(d, 'demo_%d.rs' % i)
-            meta = os.path.join(d, 'meta_%d.json' % i)
+        for j in (1, 2):
+            i = j + 2 * (rnd - 1)
+            diff = os.path.join(d, 'mut_%d.diff' % j)
+            demo = os.path.join(d, 'demo_%d.rs' % j)
+            meta = os.path.join(d, 'meta_%d.json' % j)
             dest = os.path.join(VERIF, 'seeded', '%s_%d' % (prop, i))
             if not (os.path.exists(diff) and os.path.exists(demo)):
                 print(prop, i, 'missing files')
